@@ -21,7 +21,7 @@ ASSUMPTIONS = ["master holds cyc/stb/adr/we/sel/dat_w/cti/bte until ack; burst m
                "CSR bridge: full-word selects only (CSR registers are word registers), CSR bus width = Wishbone width",
                "widths scaled down (8..64 bit), memory depth 4..16 words, cache sizes 2/4/8 words"]
 BOUNDS = {"quick": "BMC K=12 cycles from reset", "thorough": "BMC K=18 cycles from reset (cache K=16), all ratio/geometry configurations"}
-OUTSIDE = "histories longer than K cycles (in particular long dirty-eviction chains beyond K); cache sizes > 8 words; byte-addressed interfaces"
+OUTSIDE = "histories longer than K cycles; slaves other than the real SRAM for the cache/remapper/CSR bridge (the width converters are also checked in front of ANY legal slave: symbolic latency >= 0) (in particular long dirty-eviction chains beyond K); cache sizes > 8 words; byte-addressed interfaces"
 FUNCS = ["litex.soc.interconnect.wishbone.DownConverter", "litex.soc.interconnect.wishbone.UpConverter", "litex.soc.interconnect.wishbone.Converter",
          "litex.soc.interconnect.wishbone.Cache", "litex.soc.interconnect.wishbone.Remapper", "litex.soc.interconnect.wishbone.Wishbone2CSR",
          "litex.soc.interconnect.wishbone.SRAM", "litex.soc.interconnect.wishbone.Interface"]
